@@ -215,6 +215,7 @@ async def run_process_mix(cases: list, loop, intern, *, tasks_limit=None) -> lis
     """The given deliveries processed concurrently by ONE real Worker (one message, topic and actor per case).
     Returns, per case, the Coq term, the observation and facts for the oracles."""
     w = World(results=cases[0].get("rbb", True))
+    w.mb.round_trip = max(c.get("round_trip", 0.0) for c in cases)
     await w.declare("q")
     start = CLOCK.now_us()
     router = Router()
@@ -279,6 +280,7 @@ async def run_process_case(case: dict, loop, intern) -> dict:
 async def run_handle_case(case: dict, loop, intern) -> dict:
     """A plain Message obtained by iterating a queue (standalone use of the message API)."""
     w = World(results=case.get("rbb", True))
+    w.mb.round_trip = case.get("round_trip", 0.0)
     await w.declare("q")
     mid = "m1"
     start = CLOCK.now_us()
